@@ -84,7 +84,7 @@ def _setup(ctx, kind, subregions=True, nvmax=3, **kw):
     kwf = {"vdims": gen.rand_vdims(rng, nvdim), "unit": gen.pick(rng, [None, "A/m"])}
     if dtype == "complex":
         kwf["dtype"] = complex
-    f = df.Field(mesh, nvdim=nvdim, value=arr.copy(), valid=valid.copy(), **kwf)
+    f = gen.via_history(None, df.Field(mesh, nvdim=nvdim, value=arr.copy(), valid=valid.copy(), **kwf))
     A = np.array(f.array, copy=True)   # as stored (int -> float conversion is C02's subject)
     info = {"ndim": spec.nd, "n": spec.n, "nvdim": nvdim, "dtype": dtype,
             "dims": spec.dim_names, "n_subregions": len(boxes)}
